@@ -71,6 +71,13 @@ func run(h *common.History) {
 		if ok {
 			dlv = int64(dlT.Sub(base))
 		}
+		if tm.Armed && ok {
+			// an armed timer is armed for the deadline in force (it was computed a few hundred nanoseconds of real time ago)
+			if diff := tm.Due.Sub(dlT); diff > time.Millisecond || diff < -time.Millisecond {
+				panicked = true
+				h.Tags = append(h.Tags, "TIMER_ARMED_FOR_ANOTHER_INSTANT")
+			}
+		}
 		h.Obs = append(h.Obs, []string{common.B(closed), common.I(id), common.B(d.Err() != nil), common.I(dlv), common.B(panicked)})
 		if closed {
 			h.Tags = append(h.Tags, "closed")
@@ -91,7 +98,9 @@ func gen(r *rand.Rand) *common.History {
 		switch c := r.IntN(100); {
 		case c < 35:
 			var t int64
-			switch r.IntN(7) {
+			switch r.IntN(8) {
+			case 7:
+				t = now + 2_000_000_000 + r.Int64N(1_000_000_000_000) // seconds to a quarter of an hour ahead: never reached
 			case 0:
 				t = 0
 			case 1:
